@@ -122,16 +122,24 @@ class Exact:
         self.n_in = n_in_of(case)
         self.m = case["m"]
         self.theta = F(case["theta"])
+        # optional second equation parameter: enters through output_transform, out + kappa * inp[0]
+        self.kappa = None if case.get("kappa") is None else F(case["kappa"])
         self.u = [pfrom(js, self.n_in + 1) for js in case["u"]]
         self.du = [[p.d(j) for j in range(self.n_in)] for p in self.u]
 
-    def uval(self, inp, theta=None):
+    def uval(self, inp, theta=None, kappa=None):
         z = list(inp) + [self.theta if theta is None else theta]
-        return [p(z) for p in self.u]
+        k = self.kappa if kappa is None else kappa
+        add = 0 if self.kappa is None else k * inp[0]
+        return [p(z) + add for p in self.u]
 
-    def jac(self, inp, theta=None):
+    def jac(self, inp, theta=None, kappa=None):
         z = list(inp) + [self.theta if theta is None else theta]
-        return [[dp(z) for dp in row] for row in self.du]
+        k = self.kappa if kappa is None else kappa
+        out = [[dp(z) for dp in row] for row in self.du]
+        if self.kappa is not None:
+            out = [[v + (k if j == 0 else 0) for j, v in enumerate(row)] for row in out]
+        return out
 
     def fn(self, polys_js, inp):
         """a user function of the inputs given as polynomials in (inputs, theta), theta = caller's value"""
@@ -284,7 +292,8 @@ def make_arrays(case):
             ins, vals = rec(od["pinn_in"]), rec(od["val"])
             ths = None if ths is None else [r[0] for r in rec(od["eq_params"]["theta"])]
             arrays["_obs_dict"] = od
-        arrays["obs"] = {"ins": ins, "vals": vals, "thetas": ths}
+        arrays["obs"] = {"ins": ins, "vals": vals, "thetas": ths,
+                         "kappas": None if o.get("observed_kappa") is None else [F(x) for x in o["observed_kappa"]]}
     return arrays
 
 
@@ -348,8 +357,17 @@ def build(case, arrays=None):
         return jnp.concatenate([inp, jnp.reshape(params.eq_params["theta"], (1,))])
 
     eq_type = {"ode": "ODE", "statio": "statio_PDE", "nonstatio": "nonstatio_PDE"}[kind]
-    u = make_pinn(polys, eq_type, input_transform=it, slice_solution=_slice(case.get("slice_solution")))
-    params = Params(nn_params=u.init_params(), eq_params={"theta": jnp.asarray(theta)})
+    eqp0 = {"theta": jnp.asarray(theta)}
+    ot = None
+    if case.get("kappa") is not None:
+        eqp0["kappa"] = jnp.asarray(float(F(case["kappa"])))
+        ot = lambda inp, out, params: out + jnp.reshape(params.eq_params["kappa"], ()) * inp[0]
+    u = make_pinn(polys, eq_type, input_transform=it, output_transform=ot,
+                  slice_solution=_slice(case.get("slice_solution")))
+    params = Params(nn_params=u.init_params(), eq_params=eqp0)
+    pbd = None
+    if case.get("pbatch"):
+        pbd = {k: jnp.asarray([[float(F(x))] for x in col], dtype=jnp.float64) for k, col in case["pbatch"].items()}
 
     dyn = None
     weights = {}
@@ -381,6 +399,8 @@ def build(case, arrays=None):
             if ao["thetas"] is not None:
                 th = jnp.asarray([float(F(x)) for x in ao["thetas"]], dtype=jnp.float64)
                 eqp["theta"] = th if o.get("theta_1d") else th[:, None]
+            if ao.get("kappas") is not None:
+                eqp["kappa"] = jnp.asarray([[float(F(x))] for x in ao["kappas"]], dtype=jnp.float64)
             obs_dict = {"pinn_in": pin, "val": val, "eq_params": eqp}
 
     if kind == "ode":
@@ -393,7 +413,7 @@ def build(case, arrays=None):
         loss = LossODE(u=u, dynamic_loss=dyn, loss_weights=LossWeightsODE(**weights), initial_condition=ic,
                        obs_slice=obs_slice, params=params)
         batch = ODEBatch(temporal_batch=jnp.asarray([float(r[0]) for r in arrays["inside"]], dtype=jnp.float64),
-                         obs_batch_dict=obs_dict)
+                         param_batch_dict=pbd, obs_batch_dict=obs_dict)
         return loss, params, batch
 
     kw = {}
@@ -428,7 +448,8 @@ def build(case, arrays=None):
     if kind == "statio":
         loss = LossPDEStatio(u=u, dynamic_loss=dyn, loss_weights=LossWeightsPDEStatio(**weights), obs_slice=obs_slice,
                              params=params, **kw)
-        batch = PDEStatioBatch(inside_batch=fl(arrays["inside"]), border_batch=border, obs_batch_dict=obs_dict)
+        batch = PDEStatioBatch(inside_batch=fl(arrays["inside"]), border_batch=border, param_batch_dict=pbd,
+                               obs_batch_dict=obs_dict)
         return loss, params, batch
     if case.get("ic"):
         c = case["ic"]
@@ -445,7 +466,7 @@ def build(case, arrays=None):
     loss = LossPDENonStatio(u=u, dynamic_loss=dyn, loss_weights=LossWeightsPDENonStatio(**weights),
                             obs_slice=obs_slice, params=params, **kw)
     batch = PDENonStatioBatch(times_x_inside_batch=fl(arrays["inside"]), times_x_border_batch=border,
-                              obs_batch_dict=obs_dict)
+                              param_batch_dict=pbd, obs_batch_dict=obs_dict)
     return loss, params, batch
 
 
@@ -496,7 +517,8 @@ def lean_case(case, arrays):
             u0 = [F(x) for x in c["u0"]]
             if len(u0) == 1:
                 u0 = u0 * m
-            out["ic"] = {"w": c["w"], "rows": [qrow(ex.uval([F(c["t0"])]))], "u0": qrow(u0)}
+            out["ic"] = {"w": c["w"], "rows": [qrow(ex.uval([F(c["t0"])], **pr)) for pr in pb_rows(case)],
+                         "u0": qrow(u0)}
         else:
             xs = _uniq([r[1:] for r in inside])
             u0tab = []
@@ -505,7 +527,14 @@ def lean_case(case, arrays):
                 if len(v) == 1:
                     v = v * m
                 u0tab.append([qrow(x), qrow(v)])
-            out["ic"] = {"w": c["w"], "u0": u0tab, "u_at_0": [[qrow(x), qrow(ex.uval([Fr(0)] + x))] for x in xs]}
+            prs = pb_rows(case)
+            if case.get("pbatch"):
+                # row i of the inside batch goes with row i of the parameter batch (spatial points distinct)
+                row_of = {tuple(r[1:]): prs[i] for i, r in enumerate(inside)}
+            else:
+                row_of = {tuple(x): prs[0] for x in xs}
+            out["ic"] = {"w": c["w"], "u0": u0tab,
+                         "u_at_0": [[qrow(x), qrow(ex.uval([Fr(0)] + x, **row_of[tuple(x)]))] for x in xs]}
     if case.get("norm"):
         c = case["norm"]
         samples = [[F(x) for x in s] for s in c["samples"]]
@@ -542,17 +571,51 @@ def lean_case(case, arrays):
         o, ao = case["obs"], arrays["obs"]
         ins = ao["ins"]
         n = len(ins)
-        caller = [["theta", q(ex.theta)]]
-        observed = []
-        thetas = [ex.theta]
+        caller = ([["kappa", q(ex.kappa)]] if ex.kappa is not None else []) + [["theta", q(ex.theta)]]
+        keys = [k for k, _ in caller]
+        observed, pbatch = [], []
         if ao["thetas"] is not None:
-            col = ao["thetas"]
-            observed = [["theta", qrow(col)]]
-            thetas = [t[0] for t in _uniq([[t] for t in col])]
-        utab = [[i, [["theta", q(t)]], qrow(ex.uval(ins[i], t))] for i in range(n) for t in thetas]
-        out["obs"] = {"w": o["w"], "obs_slice": o.get("obs_slice"), "caller": caller, "observed": observed, "n": n,
-                      "vals": qmat(ao["vals"]), "utab": utab}
+            observed.append(["theta", qrow(ao["thetas"])])
+        if ao.get("kappas") is not None:
+            observed.append(["kappa", qrow(ao["kappas"])])
+        for k, col in (case.get("pbatch") or {}).items():
+            pbatch.append([k, qrow([F(x) for x in col])])
+        od, pd = dict((k, [F(x) for x in c]) for k, c in observed), dict((k, [F(x) for x in c]) for k, c in pbatch)
+        base = {"theta": ex.theta, "kappa": ex.kappa}
+        utab = []
+        for i in range(n):
+            # every value each key could take for row i (caller / generated row i / observed row i):
+            # the model chooses among them
+            cands = {k: _uniq([[base[k]]] + ([[pd[k][i]]] if k in pd else []) + ([[od[k][i]]] if k in od else []))
+                     for k in keys}
+            for combo in itertools.product(*[[c[0] for c in cands[k]] for k in keys]):
+                vals_ = dict(zip(keys, combo))
+                utab.append([i, [[k, q(vals_[k])] for k in keys],
+                             qrow(ex.uval(ins[i], vals_["theta"], vals_.get("kappa")))])
+        out["obs"] = {"w": o["w"], "obs_slice": o.get("obs_slice"), "caller": caller, "observed": observed,
+                      "pbatch": pbatch, "n": n, "vals": qmat(ao["vals"]), "utab": utab}
     return out
+
+
+def pb_rows(case):
+    """keyword arguments (theta=, kappa=) of `Exact.uval` for each row of the parameter batch
+    (a single empty dict when there is none: the caller's values)"""
+    pb = case.get("pbatch")
+    if not pb:
+        return [{}]
+    n = len(next(iter(pb.values())))
+    return [{k: F(col[i]) for k, col in pb.items()} for i in range(n)]
+
+
+def obs_row_kwargs(case, arrays, i):
+    """parameters seen by observation row i: observed row i, else generated row i, else the caller's value"""
+    ao = arrays["obs"]
+    kw = dict(pb_rows(case)[i]) if case.get("pbatch") else {}
+    if ao["thetas"] is not None:
+        kw["theta"] = ao["thetas"][i]
+    if ao.get("kappas") is not None:
+        kw["kappa"] = ao["kappas"][i]
+    return kw
 
 
 def sol_slice(case):
